@@ -95,13 +95,16 @@ var clusterATemplates = []string{
 	`Sum(field=v)`, `Sum(Row(f=1), field=v)`, `Min(field=v)`, `Max(Row(kf=$2), field=v)`, `MinRow(field=f)`, `MaxRow(field=f)`,
 	`SetRowAttrs(f, 1, a=$1, b=1.0, c=-2, d=true, g=2.5, h=$2)`, `SetRowAttrs(f, 1, c=null)`, `SetRowAttrs(kf, $1, a=$2, z=10.)`,
 	`SetColumnAttrs($C, a=$2, x=3.0, y=-0.25, n=7)`, `SetColumnAttrs($C, n=null)`,
+	// floats that need the full float64 precision on the other node
+	`SetRowAttrs(f, 2, p=3.14159265358979, q=99.999999, r=0.30000000000000004, s=123456789.125, t=-0.00000000025, u=12345678.0)`,
+	`SetColumnAttrs($D, p=3.14159265358979, q=0.0000001, r=-99.999999)`,
 	`Options(Row(f=1), excludeColumns=true, shards=[0,1,2,3])`, `Options(Count(Row(kf=$1)), columnAttrs=true)`,
 	`Store(Row(f=1), f=9)`, `Row(f=9)`, `ClearRow(f=9)`, `Clear($C, f=2)`, `Clear($D, kf=$2)`,
 }
 
 var clusterBTemplates = []string{
 	`Set($1, kf=$2)`, `Set($2, kf=$2)`, `Set($2, f=1)`, `Set($1, v=-3)`,
-	`SetColumnAttrs($1, a=$2, x=1.0)`, `SetRowAttrs(kf, $2, a=$1, w=2.0)`,
+	`SetColumnAttrs($1, a=$2, x=1.0)`, `SetRowAttrs(kf, $2, a=$1, w=2.0, e=2.718281828459045)`,
 	`Row(kf=$2)`, `Count(Row(f=1))`, `TopN(kf, n=1)`, `Rows(kf, column=$1)`, `Row(v > -7)`,
 	`Clear($1, kf=$2)`, `Store(Row(kf=$2), f=7)`, `ClearRow(f=7)`,
 }
